@@ -550,13 +550,44 @@ var tbsWriters = map[string]map[string]string{
 }
 
 func ruleTbsWriters(c *Ctx, r *Rep) {
+	// a function may write a field when the table says so, or when it is a helper: every module function that calls it may
+	var allowed func(fn *ssa.Function, field string, seen map[*ssa.Function]bool) (bool, string)
+	allowed = func(fn *ssa.Function, field string, seen map[*ssa.Function]bool) (bool, string) {
+		fk := c.FuncKey(fn)
+		if tab, known := tbsWriters[fk]; known {
+			for k := range tab {
+				if k == field || (k != "" && strings.HasPrefix(field, k+".")) {
+					return true, fk
+				}
+			}
+			return false, fk + " is a confirmed writer, but not of this field"
+		}
+		if seen[fn] {
+			return true, ""
+		}
+		seen[fn] = true
+		callers := c.Graph().Callers(fn)
+		if len(callers) == 0 {
+			return false, fk + " is not a confirmed writer and nothing in the module calls it"
+		}
+		via := ""
+		for _, g := range callers {
+			ok, why := allowed(g, field, seen)
+			if !ok {
+				return false, why
+			}
+			if why != "" {
+				via = why
+			}
+		}
+		return true, via
+	}
 	for _, fn := range c.Funcs {
 		fk := c.FuncKey(fn)
 		for _, fs := range storesIntoType(c, fn, "cert.TbsCertificate") {
-			allowed, known := tbsWriters[fk]
-			_, okField := allowed[fs.field]
 			// asn1.Unmarshal(&…Parameters) style fills are stores through calls, not seen here
-			r.Check(known && okField, "writer|"+fk+"|"+fs.field, c.Pos(fs.st.Pos()), "a confirmed writer of this to-be-signed field", sprintf("known writer: %v, field allowed: %v", known, okField))
+			ok, why := allowed(fn, fs.field, map[*ssa.Function]bool{})
+			r.Check(ok, "writer|"+fk+"|"+fs.field, c.Pos(fs.st.Pos()), "a confirmed writer of this to-be-signed field, or a helper called only by such writers", why)
 		}
 	}
 }
